@@ -121,6 +121,25 @@ fn run_op(ctx: &Ctx, ch: &Channel, name: &str, chan: u16, seq: u32) -> (String, 
         "bind_nowait" => (format!("{:?}", ch.queue_bind_nowait("q", "x", "k", FieldTable::new()).map_err(|e| err_name(&e))), "Ok(())".into()),
         "delete_nowait" => (format!("{:?}", ch.queue_delete_nowait("q", QueueDeleteOptions::default()).map_err(|e| err_name(&e))), "Ok(())".into()),
         "publish" => (format!("{:?}", ch.basic_publish("", Publish::new(b"xyz", "k")).map_err(|e| err_name(&e))), "Ok(())".into()),
+        "exchange_ops" => {
+            // six requests: the synchronous exchange operations (declare, passive declare, bind,
+            // unbind - through the channel and through a handle -, delete), each waits for its own -Ok
+            let t = FieldTable::new();
+            let mut r: Vec<String> = Vec::new();
+            let mut note = |what: &str, x: Result<(), amiquip::Error>| r.push(format!("{}={}", what, if x.is_ok() { "Ok".to_string() } else { err_name(&x.unwrap_err()) }));
+            match ch.exchange_declare(ExchangeType::Topic, "xa", ExchangeDeclareOptions::default()) {
+                Ok(xa) => {
+                    note("declare", Ok(()));
+                    note("passive", ch.exchange_declare_passive("xb").map(|_| ()));
+                    note("bind", ch.exchange_bind("xa", "xb", "k", t.clone()));
+                    note("unbind", ch.exchange_unbind("xa", "xb", "k", t.clone()));
+                    note("h.bind", xa.bind_to_source(&xa, "k2", t.clone()));
+                    note("delete", xa.delete(false));
+                }
+                Err(e) => note("declare", Err(e)),
+            }
+            (r.join(" "), expected_only(name, chan, seq).1)
+        }
         other => panic!("unknown op {}", other),
     }
 }
@@ -141,6 +160,7 @@ fn expected_only(name: &str, chan: u16, seq: u32) -> ((), String) {
         "qos" | "recover" | "bind" | "confirm" | "declare_nowait" | "purge_nowait" | "bind_nowait" | "delete_nowait" | "publish" => "Ok(())".to_string(),
         "nowait_handles" => "q.bind=Ok x.bind_src=Ok x.bind_dst=Ok x.unbind_src=Ok x.unbind_dst=Ok q.purge=Ok q.delete=Ok x.delete=Ok confirm=Ok".to_string(),
         "get_empty" => "Ok(None)".to_string(),
+        "exchange_ops" => "declare=Ok passive=Ok bind=Ok unbind=Ok h.bind=Ok delete=Ok".to_string(),
         _ => String::new(),
     };
     ((), w)
@@ -150,6 +170,7 @@ fn seqs_used(op: &str) -> u32 {
     match op {
         "consume_cancel" | "consume_srv_cancel" => 2,
         "handle_ops" => 4,
+        "exchange_ops" => 6,
         "nowait_handles" => 12,
         "publish" => 0, // a publish is not a request the broker numbers (Basic.Publish has no reply)
         _ => 1,
@@ -182,6 +203,7 @@ impl Scenario for Rpc {
             json!({"programs": [["declare", "purge"], ["purge", "declare"]], "hold": true, "reuse": "ba"}),
         ];
         v.push(json!({"programs": [["declare", "purge"], ["publish", "delete"]], "hold": false, "fine": true}));
+        v.push(json!({"programs": [["exchange_ops", "declare"], ["purge", "exchange_ops"]], "hold": true}));
         // a high-water mark below one publish (default low-water mark): every publish is a
         // throttling episode, and the calls behind it still get their own replies
         v.push(json!({"programs": [["publish", "declare", "purge"], ["purge", "publish", "declare"]], "hold": false, "high": 32}));
@@ -350,6 +372,7 @@ impl Scenario for Rpc {
                 "bind" => vec![(50, 20, false)],
                 "confirm" => vec![(85, 10, false)],
                 "handle_ops" => vec![(50, 10, false), (50, 30, false), (50, 40, false)],
+                "exchange_ops" => vec![(40, 10, false), (40, 10, false), (40, 30, false), (40, 40, false), (40, 30, false), (40, 20, false)],
                 "declare_nowait" => vec![(50, 10, true)],
                 "purge_nowait" => vec![(50, 30, true)],
                 "bind_nowait" => vec![(50, 20, true)],
